@@ -138,6 +138,8 @@ pub fn exec_rops(pfx: &'static str, fam: u64, e: En, kind: RdKind, backend: &RdB
         sim.sig(ctx, op, arg, fam);
         if let Some(f) = sim.fill() {
             let wb = kind.word_bits();
+            // (endianness, reader, bits in buffer, op kind): the state x operation matrix of C02
+            ctx.cover("rd.fill_x_op", (e as u64) << 40 | (kind as u64) << 32 | (f as u64) << 8 | op.kind_id());
             ctx.probe_if(f > wb, "rd.fill_above_one_word");
             if let ROp::Bits(n) = op {
                 ctx.probe_if(*n == 64 && f == 0, "rd.n64_empty_buffer");
@@ -275,6 +277,15 @@ impl Family for C02 {
             "rd.clone_nonempty_buffer",
             "rsim.clone_probe_checked",
         ]
+    }
+
+    fn required_cover(t: Tier) -> Vec<(&'static str, usize)> {
+        // every (endianness, buffered reader word W, bits in buffer 0..2W-1, op kind in
+        // {read_bits, read_unary, skip_bits, peek_bits, clone}) = 2 x 240 x 5 = 2400 pairs
+        match t {
+            Tier::Quick => vec![("rd.fill_x_op", 2200)],
+            Tier::Thorough => vec![("rd.fill_x_op", 2400)],
+        }
     }
 
     fn runs(t: Tier) -> u64 {
